@@ -173,7 +173,8 @@ class SessionRun(ClientRun):
         if cause == "idle" and not changed and self.rows and self.rows[-1]["c"] == "idle" and self.rows[-1]["t"] == w.now_ms():
             return
         self._last_key = key
-        self.rows.append({"c": cause, "a": args, "t": w.now_ms(), "up": up, "w": wl, "cb": cb, "dn": done, "nh": nh, "q": idle, "tm": tm if idle else []})
+        subs, self.step_subs = self.step_subs, []
+        self.rows.append({"c": cause, "a": args, "t": w.now_ms(), "up": up, "w": wl, "cb": cb, "dn": done, "nh": nh, "q": idle, "tm": tm if idle else [], "sub": subs})
 
     def _after_callback(self, handle) -> None:
         if self.cur is not None:
